@@ -369,8 +369,8 @@ def run(tier: str, seed: int):
         g, ds, txt = U.universe(tier, seed, U.EXT, quick_nodes=4, quick_limit=3500)
     else:
         g, ds, txt = U.universe(tier, seed, U.EXT, thorough_nodes=4)
-        ds += U.random_descrs(seed, U.EXT, 5, 5000) + U.random_descrs(seed, U.EXT, 6, 3000) + U.random_descrs(seed, U.EXT, 7, 1500)
-        txt += '; 5000/3000/1500 seeded random 5/6/7-node trees'
+        ds += U.random_descrs(seed, U.EXT, 5, 9000) + U.random_descrs(seed, U.EXT, 6, 6000) + U.random_descrs(seed, U.EXT, 7, 3000)
+        txt += '; 9000/6000/3000 seeded random 5/6/7-node trees'
     gn = NumGen(U.EXT, seed=seed)
     gs = NumGen(U.EXT, seed=seed, strings=True)
     for i, d in enumerate(ds):
